@@ -130,6 +130,47 @@ proof! {
     }
 }
 
+// engine level (needs the hook): a balance snapshot delivered through EngineState::update_from_account lands on the asset it
+// names - and only there - under the same no-roll-back rule; `whole_snapshot` delivers it inside a full account snapshot
+fn engine_balance(asset_index: usize, whole_snapshot: bool) {
+    use crate::world::*;
+    use barter::engine::state::{instrument::data::DefaultInstrumentMarketData, order::Orders, position::PositionManager, trading::TradingState};
+    use barter_execution::{AccountEvent, AccountEventKind, AccountSnapshot};
+    use barter_instrument::exchange::ExchangeIndex;
+    let (s_a, s_b) = (any_u8_lt(4), any_u8_lt(4));
+    let (held_a, held_b) = (any_balance(), any_balance());
+    let istate = instrument_state(0, instrument(0, "btc_usdt", 0, 1), PositionManager::default(), Orders::default(), DefaultInstrumentMarketData::default());
+    let mut state = engine_state(TradingState::Disabled, instrument_states_1(("btc_usdt", istate)));
+    state.assets = asset_states_2(
+        (asset_key(ExchangeId::BinanceSpot, "btc"), asset_state("btc", Some(Timed::new(held_a, time_at(s_a))))),
+        (asset_key(ExchangeId::BinanceSpot, "usdt"), asset_state("usdt", Some(Timed::new(held_b, time_at(s_b))))),
+    );
+    let s1 = any_u8_lt(4);
+    let message = AssetBalance { asset: AssetIndex(asset_index), balance: any_balance(), time_exchange: time_at(s1) };
+    let event = if whole_snapshot {
+        AccountEvent { exchange: ExchangeIndex(0), kind: AccountEventKind::Snapshot(AccountSnapshot { exchange: ExchangeIndex(0), balances: vec![message.clone()], instruments: vec![] }) }
+    } else {
+        AccountEvent { exchange: ExchangeIndex(0), kind: AccountEventKind::BalanceSnapshot(Snapshot(message.clone())) }
+    };
+    let out = state.update_from_account(&event);
+    assert!(out.is_none());
+    let (named_held, named_s, other_held, other_s) = if asset_index == 0 { (held_a, s_a, held_b, s_b) } else { (held_b, s_b, held_a, s_a) };
+    let named = state.assets.asset_index(&AssetIndex(asset_index)).balance.as_ref().expect("C09: balance lost");
+    let other = state.assets.asset_index(&AssetIndex(1 - asset_index)).balance.as_ref().expect("C09: balance lost");
+    assert!(other.time == time_at(other_s) && other.value == other_held, "C09: a balance message changed another asset");
+    let newest = if s1 >= named_s { s1 } else { named_s };
+    assert!(named.time == time_at(newest), "C09: held balance does not carry the greatest delivered exchange timestamp");
+    assert!((s1 == newest && named.value == message.balance) || (named_s == newest && named.value == named_held), "C09: held balance was not delivered with the held timestamp");
+    if s1 < named_s { assert!(named.value == named_held, "C09: an older balance overwrote newer state"); }
+    kani::cover!(s1 < named_s, "stale");
+    kani::cover!(s1 > named_s, "newer");
+    core::mem::forget((state, event, message));
+}
+proof! { #[kani::unwind(26)] fn c09_q_engine_balance_asset0() { engine_balance(0, false) } }
+proof! { #[kani::unwind(26)] fn c09_q_engine_balance_asset1_in_snapshot() { engine_balance(1, true) } }
+proof! { #[kani::unwind(26)] fn c09_t_engine_balance_asset1() { engine_balance(1, false) } }
+proof! { #[kani::unwind(26)] fn c09_t_engine_balance_asset0_in_snapshot() { engine_balance(0, true) } }
+
 proof! {
     #[kani::unwind(26)]
     fn c09_twin_must_fail() {
